@@ -14,6 +14,7 @@ type ContextScope struct {
 	errorsMU sync.Mutex
 	errors   []error
 	done     chan struct{}
+	doneOnce sync.Once
 }
 
 // New create new instance of context scope
@@ -52,19 +53,26 @@ func (s *ContextScope) Kill() {
 
 // Stop stop the scope context without error
 func (s *ContextScope) Stop() {
-	if !s.IsDone() {
+	s.doneOnce.Do(func() {
 		close(s.done)
-	}
+	})
 }
 
 // Err return cumulative error if the scope context contains any error
 func (s *ContextScope) Err() error {
-	return goaterr.ToError(s.errors)
+	return goaterr.ToError(s.Errors())
 }
 
 // Errors return scope errors
 func (s *ContextScope) Errors() []error {
-	return s.errors
+	s.errorsMU.Lock()
+	defer s.errorsMU.Unlock()
+	if len(s.errors) == 0 {
+		return nil
+	}
+	errs := make([]error, len(s.errors))
+	copy(errs, s.errors)
+	return errs
 }
 
 // AppendErrors append many errors to scope (skip nil errors)
